@@ -5,4 +5,5 @@ CONSTANTS Inf = 7
   Handlers = {"p", "q", "r"}
   MaxTruth = 10
   MaxDeliver = 18
+  Restarts = FALSE
 CHECK_DEADLOCK FALSE
